@@ -64,9 +64,11 @@ static void actors_spawn(world_t *w, actor_t *a, int n, const int *kinds,
         vrt_rng_init(&a[i].rng, seed, 100 + (uint64_t)i);
         a[i].vid = vrt_actor_new(act_kind_name[kinds[i]]);
     }
+    int ult_seq = 0;
     for (int i = 0; i < n; i++) {
         if (kinds[i] == ACT_ULT) {
-            a[i].pool_idx = i % w->nes;
+            /* the k-th ULT actor goes to pool k % nes */
+            a[i].pool_idx = ult_seq++ % w->nes;
             VRT_ABT(ABT_thread_create(w->pools[a[i].pool_idx], actor_entry_abt,
                                       &a[i], ABT_THREAD_ATTR_NULL, &a[i].th));
         } else if (kinds[i] == ACT_TASK) {
